@@ -197,6 +197,14 @@ def main(chk):
     maxlen = 2 if chk.quick else 3
     fams = []
     variants = ["Select", "SELECT", "Table", "mixedCase", "UPPER", "lower_case", "with space", "a" * 40, "name", "col1", "_lead", "tr$il"]
+    variants += lc.INITIAL_WORDS
+    # ---- the backend's first-character rule, measured the same way: LexersTLA's NumberLike (a bare identifier may not start with a
+    # digit or $) states what the BACKEND requires; it is never taken from the tree's illegal_initial_characters
+    first_chars = list("0123456789$_a")
+    measured_initial = lc.sqlite_illegal_initial(first_chars)
+    if measured_initial != set("0123456789$"):
+        chk.machinery("calibration: SQLite refuses bare identifiers starting with %r; Lexers.tla (NumberLike) says every digit and $"
+                      % sorted(measured_initial))
     pct_only = ("sqlite_format", "pg_psycopg2")          # same preparer as sqlite / pg_asyncpg except for the %% doubling
     dotted_words = ["ab", "select", "a\"b", "x.y", "%%", "A"]
     for config, d in dialects.items():
@@ -211,6 +219,8 @@ def main(chk):
             fams.append(lc.ident_family("ident@" + config, d, be, ["%", "a", "A", "\"", "_"], 3 if chk.quick else 4, kws, variants + ["select", "100%"]))
         else:
             fams.append(lc.ident_family("ident@" + config, d, be, lc.ID_ALPHA, maxlen, kws, words))
+        # the first-character rule: digits / _ / $ / a letter in first and later positions, every dialect
+        fams.append(lc.ident_family("initial@" + config, d, be, lc.ID_ALPHA_INITIAL, 2 if chk.quick else 3, kws, lc.INITIAL_WORDS))
         deep = not chk.quick or config == "sqlite"
         fams.append(lc.ident_family("dotted@" + config, d, be, lc.ID_ALPHA_SMALL, 2 if deep else 1, kws, [] if deep else dotted_words,
                                     mode="dotted", maxparts=2))
@@ -265,7 +275,7 @@ def main(chk):
         p = d.identifier_preparer
         be = lc.backend_of(config)
         halve = lc.dblpct_of(d)
-        for c in by["ident@" + config]:
+        for c in by["ident@" + config] + by["initial@" + config]:
             n = lc.dec(c["n"])
             want, forced = lc.dec(c["quote"]), lc.dec(c["forced"])
             sig = dict(spec="Lexers", config=config, backend=be, special=_special(n), quoted=c["quoted"])
@@ -320,7 +330,8 @@ def main(chk):
     # ------------------------------------------------------------------ binding 2: every name on a real SQLite database
     rt = SqliteRoundTrip(chk, os.path.join(chk.work, "c06.db"))
     cases = by["ident@sqlite"]
-    names = [lc.dec(c["n"]) for c in cases]
+    initial_names = sorted({lc.dec(c["n"]) for c in by["initial@sqlite"]})          # always all of them
+    names = [lc.dec(c["n"]) for c in cases if lc.dec(c["n"]) not in set(initial_names)]
     short = [n for n in names if len(n) <= 2 or n.lower() in candidates or n in variants]
     longer = [n for n in names if n not in set(short)]
     rng.shuffle(longer)
@@ -331,6 +342,7 @@ def main(chk):
         drop = set(two[len(two) // 2:])
         todo = [n for n in todo if n not in drop]
     kwset = set(measured)
+    todo = initial_names + todo
     for n in todo:
         cls = "backend_keyword" if n.lower() in kwset else "word" if n.isalnum() else "special"
         rt.run(n, cls)
@@ -340,6 +352,7 @@ def main(chk):
         dict(states=r.distinct, transitions=r.generated, traces_validated_against_impl=evals, evaluations=evals + rt.steps,
              sqlite_names_roundtripped=rt.n, sqlite_steps=rt.steps, distinct_nontrivial=len(nontrivial),
              sqlite_keywords_measured=len(measured), sqlite_keyword_candidates=len(candidates),
+             sqlite_illegal_initial_measured="".join(sorted(measured_initial)), initial_names_roundtripped=len(initial_names),
              sqlite_reserved_but_not_needed=sorted(set(sp.reserved_words) - set(measured))[:80],
              names_per_family={k: len(v) for k, v in by.items()}, configurations=sorted(dialects), samples=samples,
              tlc_wall_s=round(r.wall, 1), tlc_processes=r.runs, exhaustive=True,
